@@ -197,6 +197,7 @@ octosql "SELECT * FROM plugins.plugins"`,
 			"tsv":     csv.Creator('\t'),
 		}
 		for ext, pluginName := range fileExtensionHandlers {
+			ext, pluginName := ext, pluginName
 			fileHandlers[ext] = func(ctx context.Context, name string, options map[string]string) (physical.DatasourceImplementation, physical.Schema, error) {
 				db, err := databases[pluginName]()
 				if err != nil {
